@@ -32,6 +32,7 @@ struct Profile {
   int p_casfail = 15;
   bool guard_level = false;     // only op-level preemption
   int p_prep_scn = 0;           // percent of OptimisticLock cases built around the PrepareRead fallback scenario
+  int p_many = 12;              // per mille of cases in which one thread takes a large number of shared grants at once (S_MANY)
   int p_hold = 6;               // percent of X/SIX/S sections that are held for a long time (HOLD n: waiters exhaust their budgets)
   int p_tiny = 25;              // percent of cases that are tiny: one short transaction per thread, 1-3 early preemptions
   int p_nest = 0;               // percent of (non-MCS) cases that contain nested compatible grants of one thread on one lock
@@ -481,7 +482,7 @@ gen_case(const Profile &f)
     }
   }
   const bool tiny = chance(f.p_tiny);
-  const int nthr = tiny ? pick(std::max(2, f.min_thr), std::max(3, std::min(4, f.max_thr))) : pick(f.min_thr, f.max_thr);
+  int nthr = tiny ? pick(std::max(2, f.min_thr), std::max(3, std::min(4, f.max_thr))) : pick(f.min_thr, f.max_thr);
   c.allow_nesting = c.cls != kMcs && chance(f.p_nest);
   uint32_t fresh = 0;
   c.threads.resize(nthr);
@@ -504,6 +505,44 @@ gen_case(const Profile &f)
       c.threads[t].dep = pick(0, t - 1);
     }
   }
+  // counter widths: one thread holds very many shared grants at once (guards are not bound to threads) while the others
+  // run their generated transactions; on MCSLock only in single-thread cases (a later LockS of the same thread would
+  // queue behind a writer that arrived meanwhile)
+  if (!f.guard_level && pick(0, 999) < f.p_many) {
+    static const uint32_t small[] = {31, 32, 33, 63, 64, 65, 127, 128, 129, 255, 256, 257, 511, 512, 1023, 1024, 1025, 4095, 4096, 4097};
+    static const uint32_t large[] = {16383, 16384, 16385, 32767, 32768, 32769, 65535, 65536, 65537};
+    const bool big = chance(30);
+    uint32_t n = big ? large[pick(0, 8)] : small[pick(0, 19)];
+    if (c.cls == kMcs) {
+      c.threads.resize(1);
+      if (n > 32760) n = 32760 - static_cast<uint32_t>(pick(0, 2));
+    }
+    const int t = pick(0, static_cast<int>(c.threads.size()) - 1);
+    const int l = c.nlocks == 2 ? pick(0, 1) : 0;
+    std::vector<Op> pre;
+    Op o;
+    o.code = S_MANY;
+    o.a = static_cast<uint8_t>(l);
+    o.arg = n;
+    pre.push_back(o);
+    Op h;
+    h.code = HOLD;
+    h.arg = static_cast<uint32_t>(pick(0, 40));
+    pre.push_back(h);
+    if (c.cls == kMcs || chance(80)) {
+      Op r;
+      r.code = S_MANY_REL;
+      r.a = static_cast<uint8_t>(l);
+      pre.push_back(r);  // (otherwise released at thread end)
+    }
+    auto &ops = c.threads[t].ops;
+    if (c.cls != kMcs && chance(35) && !ops.empty()) {
+      ops.insert(ops.end(), pre.begin(), pre.end());     // after the thread's own transactions
+    } else {
+      ops.insert(ops.begin(), pre.begin(), pre.end());
+    }
+  }
+  nthr = static_cast<int>(c.threads.size());
   // PrepareRead fallback scenario: a writer holds X across the reader's optimistic attempts, releases, and a
   // third thread competes for S/SIX while the reader is in its locking fallback (optionally with a spurious CAS failure)
   bool prep_scn = false;
@@ -633,6 +672,7 @@ classify(const std::string &p, const Case &c, const Outcome &o, std::vector<std:
   labels.push_back(std::string("class=") + kClsName[c.cls]);
   labels.push_back("threads=" + std::to_string(c.threads.size()));
   labels.push_back("locks=" + std::to_string(c.nlocks));
+  if (o.many_shared != 0) labels.push_back(o.many_shared >= 65536 ? "many_shared>=65536" : o.many_shared >= 16384 ? "many_shared>=16384" : "many_shared<16384");
   labels.push_back(std::string("sched=") + (c.sched.preempts.empty() && c.oppre.empty() ? "none" : c.sched.preempts.size() > 8 ? "dense" : c.sched.preempts.empty() ? "oplevel" : "targeted"));
   if (!c.sched.casfails.empty()) labels.push_back("casfail");
   if (c.allow_nesting) labels.push_back("nested_grants");
